@@ -26,21 +26,41 @@ struct Case {
     depth: u8,
     pool: usize, // 0 = global pool
     class: &'static str,
+    /// how many times the position is registered for repetition before the search (0..3)
+    registered: u8,
+    /// moves played before the search, with one search before each of them, all sharing one
+    /// context and one generator (as `Game` does)
+    history: Vec<Move>,
 }
 
 fn check_case(c: &Case, pools: &[(usize, rayon::ThreadPool)]) -> (Option<Violation>, &'static str) {
     let mut board = build_board(&c.pos);
+    for _ in 0..c.registered {
+        board.count_current_position();
+    }
     let mut ctx = SearchContext::new(c.depth);
     let mut g = MoveGenerator::new();
+    let extra = json!({"kind": "c07", "fen": c.pos.to_fen(), "depth": c.depth, "pool": c.pool, "registered": c.registered, "history": c.history.iter().map(uci).collect::<Vec<_>>()});
+    // the searches made earlier in the game with the same context (their answers are judged too)
+    let mut cur = c.pos.clone();
+    for (i, m) in c.history.iter().enumerate() {
+        let (out, untouched) = run_search(&mut board, &mut ctx, &mut g);
+        let ok = matches!(&out, Outcome::Move(d, _) if cur.legal_moves().iter().any(|x| describe_model(x) == *d));
+        if !ok || !untouched {
+            return (Some(Violation { prop: "C07".into(), class: "illegal-answer-with-reused-context".into(), seed: c.pos.to_fen(), path: c.history[..i].iter().map(uci).collect(), detail: format!("search number {} of a game sharing one context, in {}: {:?} (board untouched: {})", i + 1, cur.to_fen(), out, untouched), extra }), "move");
+        }
+        crate::walk::impl_move_from_model(m, cur.stm).apply(&mut board).expect("history apply");
+        board.toggle_turn();
+        cur = cur.make(m);
+    }
     let (out, untouched) = if c.pool == 0 {
         run_search(&mut board, &mut ctx, &mut g)
     } else {
         let pl = &pools.iter().find(|p| p.0 == c.pool).unwrap().1;
         pl.install(|| run_search(&mut board, &mut ctx, &mut g))
     };
-    let legal = c.pos.legal_moves();
-    let extra = json!({"kind": "c07", "fen": c.pos.to_fen(), "depth": c.depth, "pool": c.pool});
-    let mk = |class: &str, detail: String| Some(Violation { prop: "C07".into(), class: class.into(), seed: c.pos.to_fen(), path: vec![], detail, extra: extra.clone() });
+    let legal = cur.legal_moves();
+    let mk = |class: &str, detail: String| Some(Violation { prop: "C07".into(), class: if c.history.is_empty() { class.into() } else { format!("{}(reused-context)", class) }, seed: c.pos.to_fen(), path: c.history.iter().map(uci).collect(), detail: format!("{} [position {}; registered {} time(s); half-move clock {}]", detail, cur.to_fen(), c.registered, cur.halfmove), extra: extra.clone() });
     let label: &'static str;
     let v = match &out {
         Outcome::Panic(p) => {
@@ -96,13 +116,13 @@ pub fn cases(tier: &str) -> (Vec<Case>, serde_json::Value) {
             if d == 4 && root.legal_moves().len() > 25 {
                 continue;
             }
-            cases.push(Case { pos: root.clone(), depth: d, pool: 0, class: "seed-root" });
+            cases.push(Case { pos: root.clone(), depth: d, pool: 0, class: "seed-root", registered: 0, history: vec![] });
         }
         for pool in [1usize, 2, 3, 8, 16, 64] {
             if !thorough && pool == 64 && !matches!(*name, "startpos" | "krk" | "mated") {
                 continue;
             }
-            cases.push(Case { pos: root.clone(), depth: 2, pool, class: "seed-root-pool" });
+            cases.push(Case { pos: root.clone(), depth: 2, pool, class: "seed-root-pool", registered: 0, history: vec![] });
         }
         seen.insert(canon(&root));
         // every state within `near` plies (first 6 seeds in quick; all in thorough)
@@ -122,7 +142,7 @@ pub fn cases(tier: &str) -> (Vec<Case>, serde_json::Value) {
                 for n in &next {
                     nearby += 1;
                     for d in if thorough { vec![1u8, 2, 3] } else { vec![1u8, 2] } {
-                        cases.push(Case { pos: n.clone(), depth: d, pool: 0, class: "near-seed" });
+                        cases.push(Case { pos: n.clone(), depth: d, pool: 0, class: "near-seed", registered: 0, history: vec![] });
                     }
                 }
                 frontier = next;
@@ -157,11 +177,11 @@ pub fn cases(tier: &str) -> (Vec<Case>, serde_json::Value) {
                 if counts[i] < cap && !seen.contains(&canon(&p)) {
                     counts[i] += 1;
                     for dd in [0u8, 1, 2, 3] {
-                        cases.push(Case { pos: p.clone(), depth: dd, pool: 0, class: nm });
+                        cases.push(Case { pos: p.clone(), depth: dd, pool: 0, class: nm, registered: 0, history: vec![] });
                     }
                     if counts[i] <= 3 {
                         for pool in [1usize, 3, 64] {
-                            cases.push(Case { pos: p.clone(), depth: 2, pool, class: nm });
+                            cases.push(Case { pos: p.clone(), depth: 2, pool, class: nm, registered: 0, history: vec![] });
                         }
                     }
                 }
@@ -173,7 +193,57 @@ pub fn cases(tier: &str) -> (Vec<Case>, serde_json::Value) {
             }
         }
     }
-    let bounds = json!({"seed_roots": ROOTS.len(), "states_near_seeds": nearby, "near_plies": near, "special_cap_per_class": cap,
+    // positions that are drawn on move count or by repetition but still have legal moves
+    let mut drawn_cases = 0;
+    for name in ["startpos", "kiwipete", "krk", "kpk", "castle-base-w", "ep-legal-both"] {
+        let sd = TREE_SEEDS.iter().find(|s| s.name == name).unwrap();
+        let base = Pos::from_fen(sd.fen).unwrap();
+        for half in [98u32, 99, 100, 101, 150] {
+            let mut p = base.clone();
+            p.halfmove = half;
+            for d in [1u8, 2] {
+                cases.push(Case { pos: p.clone(), depth: d, pool: 0, class: "half-move-clock-near-or-past-100", registered: 0, history: vec![] });
+                drawn_cases += 1;
+            }
+        }
+        for reg in [1u8, 2, 3] {
+            for d in [1u8, 2] {
+                cases.push(Case { pos: base.clone(), depth: d, pool: 0, class: "position-registered-up-to-three-times", registered: reg, history: vec![] });
+                drawn_cases += 1;
+            }
+        }
+    }
+    // games sharing one search context: every path of quiet king moves between a few squares
+    // (includes triangulations: the same placement with the other side to move)
+    let mut hist_cases = 0;
+    {
+        let root = Pos::from_fen("7k/8/8/8/8/8/8/K7 w - - 0 1").unwrap();
+        let allowed: Vec<Sq> = ["a1", "b1", "b2", "a2", "h8", "g8", "g7", "h7"].iter().map(|s| parse_sq(s).unwrap()).collect();
+        let len = if thorough { 6 } else { 5 };
+        let mut paths: Vec<Vec<Move>> = vec![vec![]];
+        for _ in 0..len {
+            let mut next = Vec::new();
+            for h in &paths {
+                let mut p = root.clone();
+                for m in h {
+                    p = p.make(m);
+                }
+                for m in p.legal_moves().into_iter().filter(|m| allowed.contains(&m.from) && allowed.contains(&m.to)) {
+                    let mut t = h.clone();
+                    t.push(m);
+                    next.push(t);
+                }
+            }
+            paths = next;
+        }
+        for h in paths {
+            for d in [1u8, 2] {
+                cases.push(Case { pos: root.clone(), depth: d, pool: 0, class: "game-with-reused-context", registered: 0, history: h.clone() });
+                hist_cases += 1;
+            }
+        }
+    }
+    let bounds = json!({"drawn_but_movable_cases": drawn_cases, "reused_context_game_paths": hist_cases, "seed_roots": ROOTS.len(), "states_near_seeds": nearby, "near_plies": near, "special_cap_per_class": cap,
         "special_collected": {"checkmated": counts[0], "stalemated": counts[1], "single-legal-move": counts[2], "in-check": counts[3]},
         "depths": "0..3 (roots), 1..2/3 (near), 0..3 (special)", "pool_sizes": [1, 2, 3, 8, 16, 64]});
     (cases, bounds)
@@ -249,11 +319,11 @@ pub fn run(a: &Args) -> i32 {
         rep.add(k, *v);
     }
     rep.add("search_calls", n);
-    rep.samples = cs.iter().take(3).chain(cs.iter().rev().take(3)).map(|c| json!({"fen": c.pos.to_fen(), "depth": c.depth, "pool": c.pool, "class": c.class})).collect();
+    rep.samples = cs.iter().take(3).chain(cs.iter().rev().take(3)).map(|c| json!({"fen": c.pos.to_fen(), "depth": c.depth, "pool": c.pool, "class": c.class, "registered": c.registered, "history": c.history.iter().map(uci).collect::<Vec<_>>()})).collect();
     rep.bounds = bounds;
     rep.rule = "state = (position, depth, pool size); each is one call of the real alpha_beta_search with a brand-new context and generator on a board built for the position; the answer is compared with the model's legal-move set and the declared errors; full snapshot of the caller's board before/after".into();
     rep.assumptions = vec!["generators created during these runs use a reduced LRU capacity (hook); answers of a correct cache do not depend on capacity".into(), "a call is considered hung after 600 s".into()];
-    rep.mandatory = vec!["outcome_move".into(), "outcome_depth-too-low".into(), "class_checkmated".into(), "class_stalemated".into(), "class_single-legal-move".into()];
+    rep.mandatory = vec!["outcome_move".into(), "outcome_depth-too-low".into(), "class_checkmated".into(), "class_stalemated".into(), "class_single-legal-move".into(), "class_half-move-clock-near-or-past-100".into(), "class_position-registered-up-to-three-times".into(), "class_game-with-reused-context".into()];
     rep.finish(&sink)
 }
 
@@ -266,7 +336,16 @@ pub fn replay(v: &serde_json::Value) -> i32 {
             return 2;
         }
     };
-    let c = Case { pos, depth: v["extra"]["depth"].as_u64().unwrap_or(1) as u8, pool: v["extra"]["pool"].as_u64().unwrap_or(0) as usize, class: "replay" };
+    let mut history = Vec::new();
+    if let Some(arr) = v["extra"]["history"].as_array() {
+        let mut q = pos.clone();
+        for t in arr {
+            let m = q.legal_moves().into_iter().find(|m| uci(m) == t.as_str().unwrap_or("")).expect("replay history");
+            q = q.make(&m);
+            history.push(m);
+        }
+    }
+    let c = Case { pos, depth: v["extra"]["depth"].as_u64().unwrap_or(1) as u8, pool: v["extra"]["pool"].as_u64().unwrap_or(0) as usize, class: "replay", registered: v["extra"]["registered"].as_u64().unwrap_or(0) as u8, history };
     let pools: Vec<(usize, rayon::ThreadPool)> = if c.pool > 0 { vec![(c.pool, rayon::ThreadPoolBuilder::new().num_threads(c.pool).build().unwrap())] } else { vec![] };
     let a = check_case(&c, &pools).0.map(|x| x.class);
     let b = check_case(&c, &pools).0.map(|x| x.class);
